@@ -58,7 +58,7 @@ def gen_cases(tier, seed):
             # a hole outline that is "second hand": the polygon (or what it was copied from) served as a terminal before,
             # which leaves Polygon.mesh == False on it. It is a hole of THIS device all the same.
             dev["holes"][-1]["mesh_flag"] = False
-        post = [None, "remesh", "translate_inplace", "translation_context", "roundtrip", "remesh", None, "translate_inplace"][k % 8]
+        post = [None, "remesh", "translate_inplace", "translation_context", "roundtrip", "remesh", "smooth_separately", "translate_inplace"][k % 8]
         if k % 3 == 0:
             # device away from the origin
             dev["offset"] = [float(rng.uniform(-30, 30)) * dev["layer"]["xi"], float(rng.uniform(-30, 30)) * dev["layer"]["xi"]]
@@ -346,6 +346,17 @@ def run_case(spec):
                 import shutil
 
                 shutil.rmtree(tmp, ignore_errors=True)
+        elif post == "smooth_separately":
+            # Mesh.smooth() returns a NEW mesh; the device's own mesh (also shared by Device.copy()) stays as it was
+            sites0 = np.array(dev.mesh.sites, copy=True)
+            d2 = dev.copy()
+            sm = d2.mesh.smooth(int(rng.choice([1, 3])))
+            cx.cnt("post_operation_checks")
+            if not np.array_equal(np.asarray(dev.mesh.sites), sites0):
+                cx.viol("smooth_moved_the_sites_of_the_original_mesh", {"max_shift": float(np.abs(np.asarray(dev.mesh.sites) - sites0).max())})
+            if sm is dev.mesh or np.shares_memory(np.asarray(sm.sites), np.asarray(dev.mesh.sites)):
+                cx.viol("smoothed_mesh_aliases_original", {})
+            check_mesh(cx, dev, "after_smoothing_a_copy")
         elif post == "translate_inplace":
             W = float(np.ptp(dev.film.points[:, 0]))
             dev.translate(dx=float(rng.uniform(-2, 2)) * W, dy=float(rng.uniform(-2, 2)) * W, inplace=True)
